@@ -27,6 +27,8 @@ TEMPLATES = {
                     OutKind="DiaKind", InFiles="DiaFiles", GlobT="{}", CheckT="{}"),
     "alias": dict(Targets="AliT", Order="AliOrder", DeclDeps="AliDeps", Aliases="AliAliases", AliasMenu="AliMenu",
                   OutKind="AliKind", InFiles="AliFiles", GlobT='{"g"}', CheckT="{}"),
+    "pair": dict(Targets="PairT", Order="PairOrder", DeclDeps="PairDeps", Aliases="NoAliases", AliasMenu="NoAliasMenu",
+                 OutKind="PairKind", InFiles="PairFiles", GlobT="{}", CheckT="{}"),
     "check": dict(Targets="ChkT", Order="ChkOrder", DeclDeps="ChkDeps", Aliases="NoAliases", AliasMenu="NoAliasMenu",
                   OutKind="ChkKind", InFiles="ChkFiles", GlobT="{}", CheckT='{"k", "m"}'),
 }
@@ -68,9 +70,12 @@ def exhaustive(chk, tmp, name, template, acts, cmds, modes, sels, depth, invaria
     return res
 
 
-def generate(tmp, name, template, acts, cmds, modes, sels, depth, num, seed, systematic=False):
+def generate(tmp, name, template, acts, cmds, modes, sels, depth, num, seed, systematic=False, canonical="off", shape=None):
+    """shape: a string over B (build) and A (another action), one letter per step, e.g. "BABAB" (implies systematic, depth = len)."""
+    if shape:
+        systematic, depth = True, len(shape)
     cfg = cfg_text(template, acts, cmds, modes, sels, depth, spec="GSpec", invariants=["Emit"])
-    cfg = cfg.replace("CONSTANTS\n", "CONSTANTS\n  Systematic = %s\n" % ("TRUE" if systematic else "FALSE"), 1)
+    cfg = cfg.replace("CONSTANTS\n", "CONSTANTS\n  Systematic = %s\n  Canonical = %s\n" % ("TRUE" if systematic else "FALSE", '"%s"\n  Shape = {%s}' % (canonical, ", ".join(str(i + 1) for i, c in enumerate(shape or "") if c == "B"))), 1)
     extra = [] if systematic else ["-simulate", f"num={num}", "-depth", str(depth + 2), "-seed", str(seed)]
     res = core.tlc(os.path.join(tmp, "gen_" + name), "GrogBuildGen.tla", "gen.cfg", workers=1, timeout=900, files={"gen.cfg": cfg},
                    extra=extra, heap="8g")
@@ -147,6 +152,8 @@ class Workspace:
             return f"sub_{t}/{t}.{outv}"
         if k == "dir":
             return f"d_{t}_{outv}"
+        if k == "pair":
+            return f"pr_{t}_{outv}"      # the two declared file outputs are <this>/1 and <this>/2
         return None
 
     def resolve(self, st, d):
@@ -193,7 +200,17 @@ class Workspace:
                 if dout:
                     lines.append(f'echo "dep {rd}"; dump "{dout}"')
             body += dump + ["{ " + "; ".join(lines) + "; } > " + tmpf]
-        if kind == "file":
+        if kind == "pair":
+            # output i = function of (command, declared outputs, dependencies, input file i): exchanging the inputs exchanges the outputs
+            ins = sorted(self.h["infiles"][t])
+            assert not self.h["decldeps"][t], "pair targets have no dependencies (their outputs are per-input functions)"
+            body.append(f'mkdir -p "{out}"')
+            for i in (1, 2):
+                if c == "const" or len(ins) < 2:
+                    body.append(f'sha256sum < {tmpf} > "{out}/{i}"')
+                else:
+                    body.append(f'{{ echo "{t} {c} {s["outv"]}"; cat "{ins[i - 1]}.in"; }} | sha256sum > "{out}/{i}"')
+        elif kind == "file":
             body.append(f'sha256sum < {tmpf} > "{out}"')
         elif kind == "sub":
             body += [f'mkdir -p "sub_{t}"', f'sha256sum < {tmpf} > "{out}"']
@@ -217,6 +234,8 @@ class Workspace:
             out = self.outpath(t, s["outv"])
             if out:
                 d["outputs"] = [("dir::" + out) if self.h["outkind"][t] == "dir" else out]
+                if self.h["outkind"][t] == "pair":
+                    d["outputs"] = [out + "/1", out + "/2"]
             deps = sorted(self.h["decldeps"][t])
             if deps:
                 d["dependencies"] = [":" + x for x in deps]
@@ -396,7 +415,7 @@ def replay(grog, history, opts, scratch_root, literal_clean=True):
                     shutil.rmtree(path) if os.path.isdir(path) else os.remove(path)
                 elif v == '<<"garbage">>':
                     if os.path.isdir(path):
-                        open(os.path.join(path, "data"), "a").write("garbage")
+                        open(os.path.join(path, "1" if W.h["outkind"][t] == "pair" else "data"), "a").write("garbage")
                     else:
                         open(path, "a").write("garbage")
                 elif v == '<<"parentgone">>':
@@ -416,7 +435,7 @@ def replay(grog, history, opts, scratch_root, literal_clean=True):
                 t = act["t"]
                 path = os.path.join(W.pkg, W.outpath(t, st["src"][t]["outv"]))
                 cas = os.path.join(W.cache_dir() or "", "cas")
-                want = open(os.path.join(path, "data") if os.path.isdir(path) else path, "rb").read()
+                want = open(os.path.join(path, "1" if W.h["outkind"][t] == "pair" else "data") if os.path.isdir(path) else path, "rb").read()
                 hit = False
                 for f in os.listdir(cas) if os.path.isdir(cas) else []:
                     fp = os.path.join(cas, f)
@@ -429,7 +448,10 @@ def replay(grog, history, opts, scratch_root, literal_clean=True):
                 stats["builds"] += 1
                 for fpath in (W.trace, W.hook):
                     open(fpath, "w").close()
-                p = W.grog_cmd(W.build_args(act, st))
+                benv = None
+                if opts.get("delay_alt") and stats["builds"] % 2 == 0:
+                    benv = dict(W.env, GROG_VERIF_DELAY=opts["delay_alt"])    # a different schedule in every other build of the history
+                p = W.grog_cmd(W.build_args(act, st), env=benv)
                 if p is None:
                     info = getattr(W, "last_timeout", {})
                     note(i, "build-hang" if info.get("blocked") else "build-timeout", act=act, mode=act["mode"], model_ok=act["ok"], dec=act["dec"], **info)
@@ -541,6 +563,14 @@ def attribute(m):
         return {"C05", "C14"}      # the build claims success although a target failed: failure not reported AND success without postconditions
     if m["kind"] == "build-hang":
         return {"C04"}
+    if m["kind"] == "exec-set" and m.get("mode") != "minimal" and set(m["real"]) - set(m["model"]):
+        # a target executed although the specification serves it from the cache: not minimal re-execution (C02); when targets were
+        # forced to execute in that build (taint, no-cache, cache off) also a dependant invalidated although nothing changed (C13)
+        forced = any(set(w) & {"tainted", "no-cache", "cache-disabled"} for w in m.get("why", {}).values())
+        return {"C02", "C13"} if forced else {"C02"}
+    if m["kind"] == "exec-twice":
+        # more executions of one target in one build than the specification allows (it allows re-runs after cache faults only)
+        return {"C03", "C15"} if m.get("mode") == "minimal" else {"C03"}
     return {a}
 
 
